@@ -247,6 +247,24 @@ func extractC16() *lean {
 		})
 	}
 	l.def("incrementExpr", "List String", leanStrList(incExpr), incExpr)
+	// setTimestamp: the statements of the function body in order (the timestamp of the response is stored unconditionally:
+	// a late, older response must roll the timestamp back together with the entries it re-installs)
+	setStmts := []string{}
+	if sd := funcDecl(store, "setTimestamp"); sd != nil {
+		for _, st := range sd.Body.List {
+			switch x := st.(type) {
+			case *ast.AssignStmt:
+				if len(x.Lhs) == 1 && strings.HasPrefix(exprString(x.Lhs[0]), "service.") {
+					setStmts = append(setStmts, c16ExprSrc(x))
+				}
+			case *ast.IfStmt:
+				if !strings.Contains(c16ExprSrc(x.Cond), "err != nil") {
+					setStmts = append(setStmts, "if "+c16ExprSrc(x.Cond))
+				}
+			}
+		}
+	}
+	l.def("setTimestampStmts", "List String", leanStrList(setStmts), setStmts)
 
 	// removeExpired / search: the expiry comparisons
 	var pruneConds []string
